@@ -1,10 +1,10 @@
 package main
 
 import (
-	"hash/fnv"
 	"bytes"
 	"context"
 	"fmt"
+	"hash/fnv"
 	"os"
 	"os/exec"
 	"path/filepath"
